@@ -68,7 +68,25 @@ def comparing_layer(rng, base):
     return out
 
 
+def alias_case(rng):
+    """the SAME subtree under two keys: the YAML writer emits it once with an anchor and an alias, JSON and TOML
+    write it out twice; an upper layer then patches only one of the two places"""
+    base = base_doc(rng)
+    sub = {"cpu": rng.choice(INTS[:6]), "labels": {"tier": "x"}, "ports": [80, 443]}
+    base["web"] = sub
+    base["worker"] = sub            # same object: aliased in YAML
+    if rng.random() < 0.5:
+        base["jobs"] = [sub, {"other": 1}]
+    patch = {rng.choice(["web", "worker"]): rng.choice([{"cpu": 99}, {"labels": {"extra": True}}, {"ports": [8080]}, {"labels": {"tier": "$delete"}}])}
+    layers = [[base], [patch]]
+    if rng.random() < 0.3:
+        layers.append([{"worker": {"added_later": 1}}])
+    return {"layers": layers}
+
+
 def gen_case(rng):
+    if rng.random() < 0.15:
+        return alias_case(rng)
     nl = rng.randint(1, 3)
     base = base_doc(rng)
     layers = [[base]]
